@@ -385,6 +385,17 @@ def post_rect_overlap(ctx, original, args, kwargs, result):
         ctx.ood('iou:value', 'union has zero area')
 
 
+def _menger_floor(f, g, h):
+    """Forward error of the library's cross product 2|(x2-x1)(y3-y2) - (y2-y1)(x3-x2)| in THIS argument order, over abc:
+    64*eps*(|A*B| + |C*D|)/(abc).  Never above the order-free 128*eps/min(side) and far below it for thin, flat triples."""
+    F, G, H = ld(f), ld(g), ld(h)
+    A, B, C, D = G[0] - F[0], H[1] - G[1], G[1] - F[1], H[0] - G[0]
+    a = np.hypot(G[0] - F[0], G[1] - F[1])
+    b = np.hypot(H[0] - G[0], H[1] - G[1])
+    c = np.hypot(F[0] - H[0], F[1] - H[1])
+    return 64 * EPS * (abs(A * B) + abs(C * D)) / (a * b * c) + LD(1e-300)
+
+
 def _menger_ref(f, g, h):
     F, G, H = ld(f), ld(g), ld(h)
     cr = (G[0] - F[0]) * (H[1] - F[1]) - (G[1] - F[1]) * (H[0] - F[0])
@@ -417,7 +428,8 @@ def post_menger(ctx, original, args, kwargs, result):
     except Exception:
         return ctx.violation(mon, 'menger:formula', f'result is not a number: {result!r}', **w)
     ref, smin = _menger_ref(f, g, h)
-    floor = 128 * EPS / smin          # |dx*dy| <= side_i*side_j  =>  abs error <= few*eps*2*max(ab,bc,ca)/(abc)
+    # |dx*dy| <= side_i*side_j  =>  abs error <= few*eps*2*max(ab,bc,ca)/(abc); the order-specific bound is never larger
+    floor = min(128 * EPS / smin, _menger_floor(f, g, h))
     tol = floor + RTOL * ref
     err = abs(LD(res) - ref)
     cexact = cross_exact(f, g, h)
@@ -446,10 +458,11 @@ def post_menger(ctx, original, args, kwargs, result):
                 vals.append(float('nan'))
         vals = np.array(vals)
         spread = float(np.max(np.abs(vals - res))) if np.all(np.isfinite(vals)) else float('inf')
-        ctx.check(spread <= 2 * float(tol), 'menger:symmetry' + STATE['via'], 'menger:symmetry',
+        tol_sym = min(128 * EPS / smin, max(_menger_floor(*q) for q in itertools.permutations((f, g, h)))) + RTOL * ref
+        ctx.check(spread <= 2 * float(tol_sym), 'menger:symmetry' + STATE['via'], 'menger:symmetry',
                   f'menger_curvature depends on the argument order: values {vals.tolist()}', got=res,
                   values=vals, **w)
-        ctx.mx('slack:menger_symmetry', spread / (2 * float(tol)))
+        ctx.mx('slack:menger_symmetry', spread / (2 * float(tol_sym)))
     if not collinear:
         ctx.nontriv('menger', f, g, h)
         if good:
@@ -709,7 +722,18 @@ def _gen_rect(rng):
 
 
 def _gen_triple(rng):
-    cls = pick(rng, ['int', 'int', 'int-collinear', 'curve', 'float', 'float-near-collinear'])
+    cls = pick(rng, ['int', 'int', 'int-collinear', 'curve', 'float', 'float-near-collinear', 'close-pair'])
+    if cls == 'close-pair':
+        # two samples less than a unit apart at a large abscissa (byte offsets, time stamps) and a third one far away, all
+        # close to the x axis: one side is ~1e-9 of the other two, so any side that is not formed as the difference of its own
+        # two end points (derived from the other sides, from squared norms, ...) loses half of its digits
+        base = float(2 ** int(rng.integers(20, 41))) + float(rng.uniform(-0.5, 0.5))
+        a = np.array([base + float(rng.uniform(-1, 1)), float(rng.uniform(0, 2))])
+        b = np.array([base + float(rng.uniform(-1, 1)), float(rng.uniform(0, 2))])
+        c = np.array([float(rng.uniform(-3, 3)), float(rng.uniform(0, 100))])
+        t = np.array([a, b, c])[rng.permutation(3)]
+        return {'kind': 'triple', 'cls': cls, 'dtype': 'f8', 'form': pick(rng, ['rows', 'rows', 'lists']),
+                'triple': np.ascontiguousarray(t, dtype=float)}
     if cls == 'int':
         while True:
             t = rng.integers(-8, 9, (3, 2))
